@@ -902,6 +902,11 @@ func TestVerifBoundedC13(t *testing.T) {
 		st.immutCases, st.immutNontriv,
 		"the string is non-empty and at least one call follows",
 		bound, ok)
+	shFails := rep.count()
+	sh := vSharedStorage(1, rep.fail)
+	emit("shared storage: the accessors (on the object or on a by-value copy) and printing the builder as an operand store nothing into the spare capacity of the backing array, a use of an earlier copy does not change what the original returns later, and a RedactableBytes() result is not changed by later writes / Reset",
+		sh.Cases, sh.Nontrivial, "an envelope is open when the copy is finalized (there is a closing marker to put somewhere), or the original is written to after the copy was taken",
+		"6 first payloads x 7 fill levels of the 64-byte array (0, 40, 57..61) x {unsafe, safe} x 6 uses (RedactableString, RedactableBytes, String, Len, Sprint(c), Sprintf with c and &c)", rep.count() == shFails)
 	emit("sampled long histories: all of the above on random histories of 5..12 calls over the full alphabets, 14 start-ups (including Grow(65), Grow(100), 100 bytes)",
 		sst.pureCases+sst.freshCases+sst.immutCases, sst.pureNontrivial+sst.freshNontriv+sst.immutNontriv,
 		"sum of the non-trivial cases of the four laws above",
